@@ -68,6 +68,7 @@ def StoreStep (m : SpecMap) (a : Act) (r : ARes) (m' : SpecMap) : Prop :=
   | .setTok id t, _ => Shrinks m m' ∨ ∃ now, Shrinks (Spec.setTok m id t now) m'
   | .setAuth id s, .done true => ∃ now, Shrinks (Spec.setAuth m id s now) m'
   | .setAuth id s, _ => Shrinks m m' ∨ ∃ now, Shrinks (Spec.setAuth m id s now) m'
+  | .clearAuth id, .done true => Shrinks (Spec.clearAuth m id) m'
   | .clearAuth id, _ => Shrinks m m' ∨ Shrinks (Spec.clearAuth m id) m'
   | .removeSession id, .done true => Shrinks (Spec.remove m id) m'
   | .removeSession id, _ => Shrinks m m' ∨ Shrinks (Spec.remove m id) m'
@@ -197,7 +198,13 @@ theorem step_keeps_noTok {m m' : SpecMap} {sid : Str} {a : Act} {r : ARes}
       · exact noTok_shrinks h hsh
       · exact noTok_shrinks (noTok_setAuth h) hsh
   | clearAuth id =>
-    rcases (show Shrinks m m' ∨ Shrinks (Spec.clearAuth m id) m' by cases r <;> exact hs) with hsh | hsh
+    have hs' : Shrinks m m' ∨ Shrinks (Spec.clearAuth m id) m' := by
+      cases r with
+      | done ok => cases ok with
+        | true => exact Or.inr hs
+        | false => exact hs
+      | _ => exact hs
+    rcases hs' with hsh | hsh
     · exact noTok_shrinks h hsh
     · exact noTok_shrinks (noTok_clearAuth h) hsh
   | removeSession id =>
@@ -262,7 +269,13 @@ theorem step_keeps_noAuth {m m' : SpecMap} {sid : Str} {a : Act} {r : ARes}
       · exact noAuth_shrinks h hsh
       · exact noAuth_shrinks (noAuth_setTok h) hsh
   | clearAuth id =>
-    rcases (show Shrinks m m' ∨ Shrinks (Spec.clearAuth m id) m' by cases r <;> exact hs) with hsh | hsh
+    have hs' : Shrinks m m' ∨ Shrinks (Spec.clearAuth m id) m' := by
+      cases r with
+      | done ok => cases ok with
+        | true => exact Or.inr hs
+        | false => exact hs
+      | _ => exact hs
+    rcases hs' with hsh | hsh
     · exact noAuth_shrinks h hsh
     · exact noAuth_shrinks (noAuth_clearAuth h) hsh
   | removeSession id =>
@@ -580,5 +593,101 @@ theorem replay_sound : ∀ (es : List Ev) (m m' : SpecMap), replay m es = some m
     | some m1 =>
       simp only [hs] at h
       exact ⟨m1, replayStep_sound _ _ _ _ hs, ih m1 m' h⟩
+
+end AuthModel
+
+namespace AuthModel
+open Oidc
+
+theorem noAuth_after_clear (m : SpecMap) (sid : Str) : NoAuth (Spec.clearAuth m sid) sid := by
+  unfold NoAuth Spec.getAuth Spec.clearAuth upd
+  cases hm : m sid with
+  | none => simp [hm]
+  | some x => simp [hm]
+
+/-- the code exchange of a callback was preceded, in that thread, by a read of the login state of the session named by
+    its cookie, and the verifier it sends is the one of that state -/
+theorem exchange_needs_state (cfg : Cfg) (o : Oracles) (req : Req) (prev : Headers) (pre post : List Ev) (e : Ev)
+    (uri code ru v cid cs : Str) (hrun : IsRun (process cfg o req prev) (threadTrace (pre ++ e :: post) e.tid))
+    (ha : e.act = .idp (.code uri code ru v cid cs)) :
+    ∃ q ∈ pre, q.tid = e.tid ∧ ∃ a, q.act = .getAuth (sessionIdFromCookie cfg req.cookie) ∧ q.res = .auth (.ok (some a)) ∧
+      v = a.codeVerifier := by
+  rw [threadTrace_append, threadTrace_cons_self] at hrun
+  have hw := allActs_of_run (threadTrace pre e.tid) _ [] e.act e.res (threadTrace post e.tid) (process_idp_requests cfg o req prev) hrun
+  simp only [List.reverse_nil, List.nil_append, ha, IdpReqOK] at hw
+  obtain ⟨_, _, _, _, _, a, hpre, hv, _⟩ := hw
+  have : (Act.getAuth (sessionIdFromCookie cfg req.cookie), ARes.auth (.ok (some a))) ∈ threadTrace pre e.tid := by rw [hpre]; simp
+  obtain ⟨q, hq, ht, hqa, hqr⟩ := mem_threadTrace this
+  exact ⟨q, hq, ht, a, hqa, hqr, hv⟩
+
+/-- CONSUMPTION, FOR EVERY SCHEDULE. Once the store has acknowledged that the login state of `sid` was cleared (a callback
+    does that after its exchange succeeded), the only callbacks that can still send a code to the token endpoint for
+    `sid` are those that had ALREADY READ the login state before the clearing - the overlap window of concurrent callbacks.
+    A callback that starts afterwards finds no state (nobody writes login state under an existing id) and makes no
+    exchange: the state is single-use. -/
+theorem exchange_after_consumption_shape (cfg : Cfg) (o : Oracles) (reqOf : Nat → Req) (prevOf : Nat → Headers)
+    (m0 mEnd : SpecMap) (pre mid post : List Ev) (eC eX : Ev) (sid uri code ru v cid cs : Str)
+    (hruns : ∀ t, IsRun (process cfg o (reqOf t) (prevOf t)) (threadTrace (pre ++ eC :: (mid ++ eX :: post)) t))
+    (hstore : Reach m0 (pre ++ eC :: (mid ++ eX :: post)) mEnd)
+    (hfresh : ∀ e ∈ pre ++ eC :: (mid ++ eX :: post), e.act = .gen → ∀ n s v, e.res ≠ .gen sid n s v)
+    (hC : eC.act = .clearAuth sid ∧ eC.res = .done true)
+    (hX : eX.act = .idp (.code uri code ru v cid cs)) (hsid : sessionIdFromCookie cfg (reqOf eX.tid).cookie = sid) :
+    ∃ q ∈ pre, q.tid = eX.tid ∧ ∃ a, q.act = .getAuth sid ∧ q.res = .auth (.ok (some a)) := by
+  have hrunX := hruns eX.tid
+  rw [show pre ++ eC :: (mid ++ eX :: post) = (pre ++ eC :: mid) ++ eX :: post by simp] at hrunX
+  obtain ⟨q, hq, hqt, a, hqa, hqr, _⟩ := exchange_needs_state cfg o (reqOf eX.tid) (prevOf eX.tid) _ _ eX uri code ru v cid cs hrunX hX
+  rw [hsid] at hqa
+  simp only [List.mem_append, List.mem_cons] at hq
+  rcases hq with hq | rfl | hq
+  · exact ⟨q, hq, hqt, a, hqa, hqr⟩
+  · rw [hC.1] at hqa; cases hqa
+  · exfalso
+    obtain ⟨a1, a2, rfl⟩ := List.append_of_mem hq
+    rw [show pre ++ eC :: ((a1 ++ q :: a2) ++ eX :: post) = pre ++ ([eC] ++ (a1 ++ ([q] ++ (a2 ++ eX :: post)))) by simp] at hstore
+    obtain ⟨m1, _, hstore⟩ := (reach_append _ _ _ _).mp hstore
+    obtain ⟨m2, hclr, hstore⟩ := (reach_append _ _ _ _).mp hstore
+    obtain ⟨n1, h1, hstore⟩ := (reach_append _ _ _ _).mp hstore
+    obtain ⟨n2, hqstep, _⟩ := (reach_append _ _ _ _).mp hstore
+    have hno2 : NoAuth m2 sid := by
+      simp only [Reach] at hclr
+      obtain ⟨m', hs, rfl⟩ := hclr
+      rw [hC.1, hC.2] at hs
+      simp only [StoreStep] at hs
+      exact noAuth_shrinks (noAuth_after_clear m1 sid) hs
+    have hna : ¬ NoAuth n1 sid := by
+      simp only [Reach] at hqstep
+      obtain ⟨n', hs, _⟩ := hqstep
+      rw [hqa, hqr] at hs
+      simp only [StoreStep] at hs
+      intro hn
+      rcases hs.1 with h | h
+      · cases h
+      · rw [hn] at h; cases h
+    have hexA : ∃ e ∈ a1, isSetAuth sid e.act = true := by
+      apply Classical.byContradiction
+      intro hc
+      have : ∀ e ∈ a1, isSetAuth sid e.act = false := by
+        intro e he
+        cases h : isSetAuth sid e.act with
+        | false => rfl
+        | true => exact absurd ⟨e, he, h⟩ hc
+      exact hna (reach_keeps_noAuth sid a1 m2 n1 hno2 h1 this)
+    obtain ⟨eA, heA, hisA⟩ := hexA
+    obtain ⟨b1, b2, rfl⟩ := List.append_of_mem heA
+    obtain ⟨st, hAa⟩ : ∃ st, eA.act = .setAuth sid st := by
+      cases hact : eA.act with
+      | setAuth id st => simp [isSetAuth, hact] at hisA; exact ⟨st, by rw [hisA]⟩
+      | _ => simp [isSetAuth, hact] at hisA
+    have hrunA := hruns eA.tid
+    rw [show pre ++ eC :: ((b1 ++ eA :: b2) ++ q :: a2 ++ eX :: post)
+          = (pre ++ eC :: b1) ++ eA :: (b2 ++ q :: a2 ++ eX :: post) by simp] at hrunA
+    obtain ⟨g, hg, hga, n, s, v', hgr⟩ := setAuth_needs_gen cfg o (reqOf eA.tid) (prevOf eA.tid) _ _ eA sid st hrunA hAa
+    have hgmem : g ∈ pre ++ eC :: ((b1 ++ eA :: b2) ++ q :: a2 ++ eX :: post) := by
+      simp only [List.mem_append, List.mem_cons] at hg
+      rcases hg with h | h | h
+      · simp [h]
+      · simp [h]
+      · simp [h]
+    exact hfresh g hgmem hga n s v' hgr
 
 end AuthModel
